@@ -529,6 +529,25 @@ func init() {
 							alpha = append(alpha, p)
 						}
 					}
+					// next-door neighbours: for a tenth of the alphabet also the point one ulp away in x, y or both
+					// (distinct points that any tolerance, however small, would confuse)
+					for i, n := 0, len(alpha); i < n; i++ {
+						if r.P(1, 10) {
+							p := alpha[i]
+							dir := []float64{math.Inf(1), math.Inf(-1)}[r.Intn(2)]
+							switch r.Intn(3) {
+							case 0:
+								p[0] = math.Nextafter(p[0], dir)
+							case 1:
+								p[1] = math.Nextafter(p[1], dir)
+							default:
+								p[0], p[1] = math.Nextafter(p[0], dir), math.Nextafter(p[1], -dir)
+							}
+							if b.Contains(p) {
+								alpha = append(alpha, p)
+							}
+						}
+					}
 					m := newQModel(c, b)
 					nops := r.Range(200, 2000)
 					qs := make([]orb.Point, 6)
